@@ -12,6 +12,7 @@ partial def loop (h : IO.FS.Stream) (out : IO.FS.Stream) (f : String → String)
     loop h out f
 
 def dispatch : String → Option (String → String)
+  | "C05" => some Lower.runLine
   | "C06" => some Rename.runLine
   | "C11" => some EnumGen.runLine
   | "C12" => some Write.runLine
